@@ -182,6 +182,7 @@ func c06(r *ev.Run) {
 	c06HealthCheckToggled(r)
 	c06ConfigUpdateAndFlapping(r)
 	c06PolicySwitchRace(r)
+	c06LeastConnAfterFailedConnects(r)
 	r.Require("least_connection_sample_pairs_judged", 1000)
 	r.Require("settled_bursts_judged", 20)
 	r.Require("connections_closed_on_host_removal", 3)
@@ -972,4 +973,92 @@ func c06PolicySwitchRace(r *ev.Run) {
 	r.Count("connections_served_on_the_race_build", atomic.LoadInt64(&served))
 	r.Case("policy-switching-race")
 	r.Require("connections_served_on_the_race_build", 100)
+}
+
+// c06LeastConnAfterFailedConnects: least-connection compares the hosts' numbers of open connections. A connect that fails must not
+// stay charged to its host: after a backend was down for a while (connects refused while it was still listed) and is back, long-lived
+// connections are spread evenly again (every selection that samples both hosts goes to the one with fewer open connections).
+func c06LeastConnAfterFailedConnects(r *ev.Run) {
+	s, err := startSUT(r, false, 0, 0)
+	if err != nil {
+		r.Internal("start sut: %v", err)
+		return
+	}
+	defer s.Close()
+	var counts [2]int64
+	mk := func(i int) (*tcpsim.Backend, error) {
+		return tcpsim.NewBackend(func(_ *tcpsim.Backend, c net.Conn) {
+			defer c.Close()
+			buf := make([]byte, 4)
+			c.SetReadDeadline(time.Now().Add(5 * time.Second))
+			if _, err := io.ReadFull(c, buf); err != nil || string(buf) != "HOLD" {
+				return
+			}
+			atomic.AddInt64(&counts[i], 1)
+			c.Write([]byte("ok"))
+			c.SetReadDeadline(time.Now().Add(60 * time.Second))
+			io.Copy(io.Discard, c) // held until the client closes
+		})
+	}
+	a, err1 := mk(0)
+	b, err2 := mk(1)
+	if err1 != nil || err2 != nil {
+		r.Internal("backend")
+		return
+	}
+	defer a.Close()
+	defer b.Close()
+	svc, err := startTCPSvc(s, []sutc.Host{{Addr: a.Addr}, {Addr: b.Addr}}, TCPOpts{Policy: service.LoadBalancePolicy_LEAST_CONNECTION, ConnTimeout: 300 * time.Millisecond})
+	if err != nil {
+		r.Internal("%v", err)
+		return
+	}
+	defer s.StopProc(svc.Name, 20*time.Second)
+	// B refuses connections for a while (no health check: it stays listed)
+	b.StopListening()
+	for i := 0; i < 120; i++ {
+		if c, err := net.DialTimeout("tcp", svc.Addr, time.Second); err == nil {
+			c.SetDeadline(time.Now().Add(time.Second))
+			c.Write([]byte("HOLD"))
+			buf := make([]byte, 2)
+			c.Read(buf)
+			c.Close()
+		}
+	}
+	if err := b.Listen(); err != nil {
+		r.Inconclusive("least-conn:backend-did-not-come-back")
+		return
+	}
+	time.Sleep(100 * time.Millisecond)
+	atomic.StoreInt64(&counts[0], 0)
+	atomic.StoreInt64(&counts[1], 0)
+	var held []net.Conn
+	n := 80
+	for i := 0; i < n; i++ {
+		c, err := net.DialTimeout("tcp", svc.Addr, time.Second)
+		if err != nil {
+			continue
+		}
+		c.SetDeadline(time.Now().Add(3 * time.Second))
+		c.Write([]byte("HOLD"))
+		buf := make([]byte, 2)
+		if _, err := io.ReadFull(c, buf); err != nil {
+			c.Close()
+			continue
+		}
+		held = append(held, c)
+	}
+	ca, cb := atomic.LoadInt64(&counts[0]), atomic.LoadInt64(&counts[1])
+	for _, c := range held {
+		c.Close()
+	}
+	w := map[string]interface{}{"connections_held": len(held), "on_the_host_that_was_never_down": ca, "on_the_host_that_had_refused_connects": cb, "refused_connects_before": "about 60 of 120"}
+	if len(held) < n*9/10 {
+		r.Inconclusive("least-conn:connections-not-established")
+	} else if cb*100 < int64(len(held))*38 || ca*100 < int64(len(held))*38 {
+		r.Violation("C06:least-connection-skewed-after-failed-connects", fmt.Sprintf("of %d long-lived connections opened after a backend had been refusing connects for a while, %d went to the host that was never down and %d to the other: failed connects are still counted as open connections of that host", len(held), ca, cb), w)
+	} else {
+		r.Count("least_connection_balanced_after_failed_connects", 1)
+	}
+	r.Case("least-conn-after-failed-connects")
 }
